@@ -8,6 +8,7 @@
      trl <mt: 4 complex> <mr: 4 complex> <ml: 4 complex> <lguess> <rguess> <disc> <sqrt disc> <n/d> <sqrt n/d>
           -> "trl <l> <r>"   the model's trl_solve with csqrt answered by the nearer of the two given
              (argument, root) pairs
+     dof <unknowns> <nsys> <eq count>*nsys <ncells> <leak count>*ncells  -> "dof <df>"
    Reals are exact rationals "p/q", complex numbers two reals. *)
 #include "glue.ml.inc"
 let toks = ref []
@@ -53,6 +54,15 @@ let () =
            let sq (z : qi) : qi = if dist z disc <= dist z nd then sdisc else snd_ in
            let (l, r) = q_trl_solve sq mt mr ml (o lg) (o rg) in
            Printf.printf "trl %s %s\n" (string_of_qi (u l)) (string_of_qi (u r))
+         | "dof" ->
+           (* dof <unknowns> <nsys> <eq count>*nsys <ncells> <leak count>*ncells *)
+           let zi () = coqz_of_z (ZZ.of_string (next ())) in
+           let unk = zi () in
+           let nsys = int_of_string (next ()) in
+           let eqs = times nsys zi in
+           let nc = int_of_string (next ()) in
+           let lk = times nc zi in
+           Printf.printf "dof %s\n" (ZZ.to_string (z_of_coqz (dof unk eqs lk)))
          | "weights" ->
            let restart = b_of (next ()) in
            let nsys = int_of_string (next ()) in
